@@ -884,7 +884,7 @@ class Task:
 
     def _check_predecessors(self, value: Union['Task', Iterable['Task']]) -> List['Task']:
         """Checks that value can be assigned to predecessors; changes nothing"""
-        value = _to_list(value)
+        value = _unique_tasks(_to_list(value))
         _check_no_nones_in_list(value, 'predecessors')
 
         parents = self.all_parents
@@ -941,7 +941,7 @@ class Task:
 
     def _check_successors(self, value: Union['Task', Iterable['Task']]) -> List['Task']:
         """Checks that value can be assigned to successors; changes nothing"""
-        value = _to_list(value)
+        value = _unique_tasks(_to_list(value))
         _check_no_nones_in_list(value, 'successors')
 
         parents = self.all_parents
